@@ -422,7 +422,7 @@ def run(ctx):
         ctx.map(fuzz_replay_shard, [(ctx.here, lo, lo + step) for lo in range(0, ncorp, step)])
     from ..fuzzdrive import campaign_args
 
-    ctx.map(fuzz_shard, campaign_args(ctx, 6, 20, 12000, 600000, 6))
+    ctx.map(fuzz_shard, campaign_args(ctx, 6, 20, 12000, 150000, 6))
     ctx.exhaustive = True
     ctx.extra["exhaustive_bounds"] = bounds
     ctx.extra["mutation_bases"] = len(bases())
